@@ -38,6 +38,7 @@ func stepAlphabet(depth int) []seqx.Step {
 		{Op: "Hook", Hooks: []int{depth*10 + 4, depth*10 + 5, depth*10 + 6}},
 		{Op: "Reset"},
 		{Op: "With", Fields: []seqx.Field{{M: "Str", Key: k("big"), Val: strings.Repeat("B", 510)}}},
+		{Op: "Level", Level: zerolog.Disabled}, // muted for a while: what is derived meanwhile must still count once re-enabled
 		{Op: "HookChain", Fields: []seqx.Field{{M: "Dict", Key: k("hd"), Sub: []seqx.Field{{M: "Int", Key: "n", Val: depth}}}, {M: "Array", Key: k("ha"), Form: "arr", Sub: []seqx.Field{{M: "Str", Val: "x"}}}, {M: "Timestamp"}}},
 	}
 }
@@ -73,6 +74,7 @@ func eventForms(full bool) []eventForm {
 
 func runC03() {
 	r := seq.New("C03", tier, "model_checking")
+	defer r.CrashGuard()
 	r.Rule = "explicit-state search over logger derivation chains: every sequence of <= D steps from {With(fields), Hook(one/two/none/discarding/GetCtx-reading), Timestamp, Caller, Ctx, Level, Output, Sample, UpdateContext, Stack, empty With} is built on the real zerolog and stepped in lock-step with the reference model (reflogger); from every reached logger a set of event forms (entry x fields x finaliser) is emitted and the received token sequence, the per-hook invocation log and the destination are compared with the model; states = distinct (abstract logger state) reached, transitions = derivation steps + events; non-trivial = the chain contains a hook or a context field"
 	r.Assumptions = []string{"derivation depth <= 4 (quick) / 5 (thorough; depth 6 with all but two steps fixed to With(field))", "a hook that runs after a discarding hook may observe the original level or Disabled (the statement leaves it open)", "the value of the caller field is not compared here (C19)"}
 	if tier == "quick" {
